@@ -128,6 +128,19 @@ def _enumeration(fi, call):
     if l is None:
         return ("none", None, None)
     it = l.iter
+    # collect-then-process: `for x in found` where another loop of the function did `found.append(member)` for the members it
+    # selected: the enumeration and the selection are those of the collecting loop
+    if isinstance(it, ast.Name) and isinstance(l.target, ast.Name):
+        apps = [c for c in walk_own(fi.node) if isinstance(c, ast.Call) and isinstance(c.func, ast.Attribute) and c.func.attr == "append"
+                and isinstance(c.func.value, ast.Name) and c.func.value.id == it.id and len(c.args) == 1 and isinstance(c.args[0], ast.Name)]
+        inits = [s_ for s_ in walk_own(fi.node) if isinstance(s_, ast.Assign) and len(s_.targets) == 1 and isinstance(s_.targets[0], ast.Name) and s_.targets[0].id == it.id]
+        if len(apps) == 1 and len(inits) == 1 and norm(inits[0].value) in ("[]", "list()"):
+            inner = _enumeration(fi, apps[0])
+            if inner[0] == "all-members" and inner[2] == apps[0].args[0].id:
+                cfg = cfg_of(fi)
+                conds = [(_abs(norm(t), inner[2]), pol) for (t, pol) in cfg.conditions_of(cfg.node_of(apps[0]).id)]
+                extra = list(inner[3]) if len(inner) > 3 else []
+                return ("all-members", inner[1], l.target.id, extra + [c for c, pol in conds if pol] + ["not " + c for c, pol in conds if not pol])
     # for name in dir(X): attr = getattr(X, name)
     if isinstance(it, ast.Call) and norm(it.func) == "dir" and len(it.args) == 1 and isinstance(l.target, ast.Name):
         obj, name = norm(it.args[0]), l.target.id
